@@ -265,6 +265,9 @@ func cmdCheck(args []string) {
 		fmt.Printf("  class=%s seed=%d\n  %s\n", v.Class, p.Seed, firstLine(v.Msg, 600))
 		exit = 1
 	}
+	for _, m := range firstN(a.infraMsgs, 3) {
+		fmt.Fprintf(os.Stderr, "simctl: infrastructure trouble in a run: %s\n", firstLine(m, 400))
+	}
 	if a.dupBad > 0 {
 		fmt.Fprintf(os.Stderr, "simctl: determinism spot-check failed %d/%d: %v\n", a.dupBad, a.dupCheck, a.infraMsgs)
 	}
